@@ -59,6 +59,12 @@ func (o c9Op) String() string {
 		return fmt.Sprintf("h%d.%s(%d)", o.A, o.K, o.X)
 	case "top", "skip", "windows":
 		return fmt.Sprintf("h%d.%s(%d)", o.A, o.K, o.N)
+	case "stage":
+		return fmt.Sprintf("stage[%s](h%d,h%d)", o.Key, o.A, o.B)
+	case "flakymap":
+		return fmt.Sprintf("h%d.map(e->flaky(e))", o.A)
+	case "evalfail":
+		return fmt.Sprintf("h%d.%s failing after %d elements", o.A, o.Key, o.N)
 	case "obs":
 		return fmt.Sprintf("observe[%s](h%d,h%d,%d)", o.Key, o.A, o.B, o.X)
 	case "constcontains":
@@ -146,6 +152,15 @@ func intList(xs []int) *value.List {
 		vs[i] = value.Int(x)
 	}
 	return value.NewList(vs...)
+}
+
+// "[1, 2]" as List.ToString prints it
+func litTextSpaced(xs []int) string {
+	parts := make([]string, len(xs))
+	for i, x := range xs {
+		parts[i] = strconv.Itoa(x)
+	}
+	return "[" + strings.Join(parts, ", ") + "]"
 }
 
 func litText(xs []int) string {
@@ -334,6 +349,131 @@ func abs(x int) int {
 	}
 	return x
 }
+
+// lazy stages with per-pass state (goroutines, ring buffers, flags, counters), as derivations
+type c9Stage struct {
+	Name   string
+	Coq    string
+	Exp    string
+	Binary bool
+	Sem    func(a, b []int) []int
+}
+
+func c9RunningSums(a []int) []int {
+	out := []int{}
+	acc := 0
+	for _, x := range a {
+		acc += x
+		out = append(out, acc)
+	}
+	return out
+}
+
+var c9Stages = []c9Stage{
+	{"merge", "StMerge", "l.merge(m,(x,y)->x<y)", true, func(a, b []int) []int {
+		out := []int{}
+		i, j := 0, 0
+		for i < len(a) && j < len(b) {
+			if a[i] < b[j] {
+				out = append(out, a[i])
+				i++
+			} else {
+				out = append(out, b[j])
+				j++
+			}
+		}
+		return append(append(out, a[i:]...), b[j:]...)
+	}},
+	{"cross", "StCross", "l.cross(m,(x,y)->x+y)", true, func(a, b []int) []int {
+		out := []int{}
+		for _, x := range a {
+			for _, y := range b {
+				out = append(out, x+y)
+			}
+		}
+		return out
+	}},
+	{"combine", "StCombine", "l.combine((x,y)->x+y)", false, func(a, _ []int) []int {
+		out := []int{}
+		for i := 0; i+1 < len(a); i++ {
+			out = append(out, a[i]+a[i+1])
+		}
+		return out
+	}},
+	{"combine3", "StCombine3", "l.combine3((x,y,z)->x+y+z)", false, func(a, _ []int) []int {
+		out := []int{}
+		for i := 0; i+2 < len(a); i++ {
+			out = append(out, a[i]+a[i+1]+a[i+2])
+		}
+		return out
+	}},
+	{"combineN", "StCombineN", "l.combineN(2,w->w.sum())", false, func(a, _ []int) []int {
+		out := []int{}
+		for i := 0; i+1 < len(a); i++ {
+			out = append(out, a[i]+a[i+1])
+		}
+		return out
+	}},
+	{"compact", "StCompact", "l.compact((x,y)->x=y)", false, func(a, _ []int) []int {
+		out := []int{}
+		for i, x := range a {
+			if i == 0 || a[i-1] != x {
+				out = append(out, x)
+			}
+		}
+		return out
+	}},
+	{"number", "StNumber", "l.number((i,e)->i+e)", false, func(a, _ []int) []int {
+		out := []int{}
+		for i, x := range a {
+			out = append(out, i+x)
+		}
+		return out
+	}},
+	{"iir", "StIir", "l.iir(e->e,(i,o)->o+i)", false, func(a, _ []int) []int { return c9RunningSums(a) }},
+	{"iirCombine", "StIirCombine", "l.iirCombine(e->e,(i0,i1,o)->o+i1)", false, func(a, _ []int) []int { return c9RunningSums(a) }},
+}
+
+func c9FindStage(name string) (c9Stage, bool) {
+	for _, s := range c9Stages {
+		if s.Name == name {
+			return s, true
+		}
+	}
+	return c9Stage{}, false
+}
+
+// the host function `flaky(x)`: the identity; when armed (countdown n >= 0) its (n+1)th call fails once
+var c9FlakyCountdown = -1
+
+func c9InstallFlaky() {
+	FG().AddStaticFunction("flaky", funcGen.Function[value.Value]{
+		Func: func(st funcGen.Stack[value.Value], cs []value.Value) (value.Value, error) {
+			if c9FlakyCountdown == 0 {
+				c9FlakyCountdown = -2 // fired
+				return nil, fmt.Errorf("transient failure of the host function")
+			}
+			if c9FlakyCountdown > 0 {
+				c9FlakyCountdown--
+			}
+			return st.Get(0), nil
+		},
+		Args:   1,
+		IsPure: false,
+	})
+}
+
+// materialising uses that may fail half way and are survived
+var c9FailingUses = map[string]string{
+	"size":     "l.size()",
+	"eval":     "l.eval()",
+	"index":    "l[0]",
+	"equal":    "l=l",
+	"order":    "l.order(e->e)",
+	"reverse":  "l.reverse()",
+	"try-size": "try l.size() catch -1",
+}
+var c9FailingUseNames = []string{"size", "eval", "index", "equal", "order", "reverse", "try-size"}
 
 // an observer: an expression over existing handles (l, m lists / a, b maps) whose result is thrown away
 type c9Observer struct {
@@ -733,6 +873,76 @@ func (e *c9Exec) apply(o c9Op) []string {
 		h.derived++
 		_, c1, _, _ := e.state(o.A)
 		ops = append(ops, fmt.Sprintf("OMovWin %d %d", o.A, c1))
+	case "stage":
+		// the other lazy stages of value/list.go: the result is a handle that stays lazy and is traversed again
+		// and again by the observations (partially, then completely) before anything materialises it
+		st, found := c9FindStage(o.Key)
+		if !ok(o.A) || !found {
+			return nil
+		}
+		b := o.A
+		if st.Binary {
+			if !ok(o.B) {
+				return nil
+			}
+			b = o.B
+		}
+		if st.Name == "cross" && len(e.pure[o.A])*len(e.pure[b]) > 40 {
+			return nil
+		}
+		l, good := e.evalList(st.Exp, []string{"l", "m"}, e.hs[o.A].l, e.hs[b].l)
+		if !good {
+			fatal("stage %s failed", st.Name)
+		}
+		e.hs[o.A].derived++
+		e.add(l, st.Sem(e.pure[o.A], e.pure[b]), "stage:"+st.Name)
+		e.cnt("list_stages", st.Name)
+		ops = append(ops, fmt.Sprintf("OStage %s %d %d", st.Coq, o.A, b))
+	case "flakymap":
+		// map(e->flaky(e)): the identity, through a host function that fails when the harness arms it
+		if !ok(o.A) {
+			return nil
+		}
+		l, good := e.evalList("l.map(e->flaky(e))", []string{"l"}, e.hs[o.A].l)
+		if !good {
+			fatal("flaky map failed")
+		}
+		e.hs[o.A].derived++
+		e.add(l, append([]int{}, e.pure[o.A]...), o.K)
+		ops = append(ops, fmt.Sprintf("OMap 0 %d", o.A))
+	case "evalfail":
+		// a materialising operation while the host function is armed to fail at its (N+1)th call: if it fails,
+		// the caller survives (Go side: the error is dropped; `try`: inside the language) and nothing may have
+		// changed; if it does not fail (no flaky closure upstream, or fewer elements) it is an ordinary Eval
+		if !ok(o.A) || o.N < 0 {
+			return nil
+		}
+		exp, found := c9FailingUses[o.Key]
+		if !found {
+			return nil
+		}
+		pre := make([]bool, len(e.hs))
+		for i := range e.hs {
+			_, _, pre[i], _ = e.state(i)
+		}
+		c9FlakyCountdown = o.N
+		v, err := evalExpr(exp, []string{"l"}, e.hs[o.A].l)
+		failed := err != nil || c9FlakyCountdown == -2
+		c9FlakyCountdown = -1
+		_ = v
+		ops = []string{}
+		for i := range e.hs {
+			_, c, p, _ := e.state(i)
+			if p && !pre[i] {
+				ops = append(ops, fmt.Sprintf("OForce %d %d", i, c))
+			}
+		}
+		if failed {
+			e.cnt("failed_materialisations", o.Key)
+			ops = append(ops, fmt.Sprintf("OEvalFail %d %d", o.A, o.N))
+		} else {
+			e.cnt("failed_materialisations", "did-not-fail")
+		}
 	case "obs", "constcontains":
 		// observer-style operations: existing handles are operands of a built-in whose result is irrelevant;
 		// no handle may change.  In the model: nothing but the materialisation (Eval) of operands, which is
@@ -798,10 +1008,36 @@ func (e *c9Exec) failNow(sig, what, exp, obs string) {
 func (e *c9Exec) observe(i int) c9Obs {
 	h := e.hs[i]
 	var o c9Obs
-	sv := mustEval("l.string()", []string{"l"}, h.l)
-	xs, good := parseIntList(string(sv.(value.String)))
-	if !good {
-		fatal("cannot parse string() of a list: %q", sv)
+	// a list that is still lazy is first consumed PARTIALLY (first(), top(2)), then completely (string()): every
+	// pass over a lazy list must yield the bound content, whatever passes came before
+	_, _, lazyBefore, _ := value.VerifListState(h.l)
+	lazyBefore = !lazyBefore
+	var firstV, top2 value.Value
+	var firstErr error
+	if lazyBefore {
+		firstV, firstErr = evalExpr("l.first()", []string{"l"}, h.l)
+		top2, _ = evalExpr("l.top(2).string()", []string{"l"}, h.l)
+	}
+	xs := []int{}
+	sv, serr := evalExpr("l.string()", []string{"l"}, h.l)
+	if serr != nil {
+		e.failNow("observation-fails", fmt.Sprintf("handle %d: string() fails: %v", i, serr), fmt.Sprint(e.pure[i]), "error")
+	} else {
+		var good bool
+		xs, good = parseIntList(string(sv.(value.String)))
+		if !good {
+			fatal("cannot parse string() of a list: %q", sv)
+		}
+	}
+	if lazyBefore && serr == nil {
+		if len(xs) > 0 {
+			if iv, isInt := firstV.(value.Int); firstErr != nil || !isInt || int(iv) != xs[0] {
+				e.failNow("observation-inconsistent", fmt.Sprintf("handle %d: first() (%v, %v) differs from the first element of string() %v", i, firstV, firstErr, xs), fmt.Sprint(xs[0]), fmt.Sprint(firstV))
+			}
+		}
+		if t2, isS := top2.(value.String); !isS || string(t2) != litTextSpaced(xs[:min(2, len(xs))]) {
+			e.failNow("observation-inconsistent", fmt.Sprintf("handle %d: top(2).string() = %v differs from the head of string() %v", i, top2, xs), "", "")
+		}
 	}
 	o.Iter = xs
 	o.Len, o.Cap, o.Present, _ = value.VerifListState(h.l)
@@ -819,12 +1055,6 @@ func (e *c9Exec) observe(i int) c9Obs {
 		eq := mustEval("l=m", []string{"l", "m"}, h.l, intList(o.Items))
 		if b, isB := eq.(value.Bool); !isB || !bool(b) {
 			e.failNow("observation-inconsistent", fmt.Sprintf("handle %d: `=` against its own elements is false", i), "true", "false")
-		}
-	} else if len(xs) > 0 {
-		// partial consumption of a lazy list must not disturb it
-		f := mustEval("l.first()", []string{"l"}, h.l)
-		if iv, isInt := f.(value.Int); !isInt || int(iv) != xs[0] {
-			e.failNow("observation-inconsistent", fmt.Sprintf("handle %d: first() differs from string()", i), fmt.Sprint(xs[0]), fmt.Sprint(f))
 		}
 	}
 	return o
@@ -872,6 +1102,9 @@ func c9RunList(h c9Hist, sum *Summary, count bool) (*c9Exec, string) {
 				what := fmt.Sprintf("handle %d (created by %s) was bound to %v; after step %d (%s) %s", i, e.hs[i].creator, want, si+1, o.String(), bad)
 				if i >= before {
 					sig = "wrong-at-creation:" + o.K
+					if o.K == "stage" {
+						sig += ":" + o.Key
+					}
 					what = fmt.Sprintf("handle %d, result of step %d (%s), must be %v by the functional model; %s", i, si+1, o.String(), want, bad)
 				}
 				e.failNow(sig, what, fmt.Sprint(want), fmt.Sprint(ob.Iter)+" / "+fmt.Sprint(ob.Items))
@@ -1329,9 +1562,10 @@ func (r *Rng) c9Ints(n int) []int {
 func (r *Rng) genListHist(maxOps int) c9Hist {
 	h := c9Hist{Kind: "list"}
 	n := 2 + r.Pick(maxOps-1)
-	handles := 0     // number of handles so far (as predicted; windows make this approximate)
-	sizes := []int{} // predicted content sizes
-	lits := []int{}  // handles that are constants of a generated function
+	handles := 0       // number of handles so far (as predicted; windows make this approximate)
+	sizes := []int{}   // predicted content sizes
+	lits := []int{}    // handles that are constants of a generated function
+	flakies := []int{} // handles whose closure calls the host function flaky
 	focus := -1
 	creator := func() {
 		switch k := r.Pick(10); {
@@ -1369,6 +1603,59 @@ func (r *Rng) genListHist(maxOps int) c9Hist {
 			sizes = append(sizes, size)
 			handles++
 			_ = k
+		}
+		if r.Chance(0.17) {
+			switch k := r.Pick(10); {
+			case k < 5:
+				// a lazy stage with per-pass state; its result stays lazy and is traversed by every observation
+				st := c9Stages[r.Pick(len(c9Stages))]
+				if r.Chance(0.3) {
+					st = c9Stages[0] // merge
+				}
+				b := a
+				if st.Binary {
+					b = r.Pick(handles)
+				}
+				sz := sizes[a]
+				switch st.Name {
+				case "merge":
+					sz = sizes[a] + sizes[b]
+				case "cross":
+					sz = sizes[a] * sizes[b]
+					if sz > 40 {
+						continue
+					}
+				case "combine", "combineN":
+					sz = max(0, sizes[a]-1)
+				case "combine3":
+					sz = max(0, sizes[a]-2)
+				}
+				h.Ops = append(h.Ops, c9Op{K: "stage", Key: st.Name, A: a, B: b})
+				one("stage", sz)
+			case k < 7:
+				h.Ops = append(h.Ops, c9Op{K: "flakymap", A: a})
+				flakies = append(flakies, handles)
+				one("flakymap", sizes[a])
+			default:
+				// a materialisation that fails half way, survived; mostly followed by a successful one
+				if len(flakies) == 0 || r.Chance(0.3) {
+					h.Ops = append(h.Ops, c9Op{K: "flakymap", A: a})
+					flakies = append(flakies, handles)
+					one("flakymap", sizes[a])
+				}
+				fi := r.Pick(len(flakies))
+				t := flakies[fi]
+				nfail := 0
+				if sizes[t] > 1 {
+					nfail = 1 + r.Pick(sizes[t]-1)
+				}
+				h.Ops = append(h.Ops, c9Op{K: "evalfail", A: t, N: nfail, Key: c9FailingUseNames[r.Pick(len(c9FailingUseNames))]})
+				if r.Chance(0.7) {
+					h.Ops = append(h.Ops, c9Op{K: []string{"force", "size"}[r.Pick(2)], A: t})
+					flakies = append(flakies[:fi:fi], flakies[fi+1:]...) // materialised: cannot fail any more
+				}
+			}
+			continue
 		}
 		if r.Chance(0.2) {
 			// an observer: handles as operands of a built-in, result thrown away
@@ -1659,6 +1946,26 @@ func c9Corpus() []c9Hist {
 		M(c9Op{K: "mminmax", Xs: []int{1, 5, 3}}, c9Op{K: "mergelit", A: 0, Key: "x", X: 1}, c9Op{K: "mergelit", A: 0, Key: "y", X: 2},
 			c9Op{K: "put", A: 0, Key: "z", X: 3}, c9Op{K: "mobs", Ks: "combine", A: 0, B: 2}),
 	)
+	// a materialisation that fails half way (host function armed), survived, then a successful one.  Witness of a
+	// seeded defect (List.Eval appending straight into l.items): [10,20,30,4] became [10,20,10,20,30,4]
+	hs = append(hs,
+		L(c9Op{K: "litrt", Xs: []int{10, 20, 30, 4}}, c9Op{K: "flakymap", A: 0}, c9Op{K: "evalfail", A: 1, N: 2, Key: "size"}, c9Op{K: "size", A: 1},
+			c9Op{K: "obs", Key: "=", A: 1, B: 0}),
+		L(c9Op{K: "lit", Xs: []int{1, 2, 3}}, c9Op{K: "flakymap", A: 0}, c9Op{K: "map", A: 1, X: 1}, c9Op{K: "evalfail", A: 2, N: 1, Key: "try-size"},
+			c9Op{K: "evalfail", A: 2, N: 2, Key: "order"}, c9Op{K: "evalfail", A: 1, N: 1, Key: "index"}, c9Op{K: "force", A: 2}, c9Op{K: "append", A: 1, X: 9}),
+		// lazy stage results traversed more than once while still lazy: partial consumption first.  Witness of a
+		// seeded defect (merge's `stopped` flag kept in the list value): the second pass yielded nothing
+		L(c9Op{K: "litrt", Xs: []int{1, 3, 5}}, c9Op{K: "litrt", Xs: []int{2, 4, 6}}, c9Op{K: "stage", Key: "merge", A: 0, B: 1},
+			c9Op{K: "obs", Key: "first", A: 2, B: 2}, c9Op{K: "obs", Key: "sum", A: 2, B: 2}, c9Op{K: "size", A: 2}),
+		L(c9Op{K: "litrt", Xs: []int{1, 3}}, c9Op{K: "litrt", Xs: []int{2}}, c9Op{K: "stage", Key: "merge", A: 0, B: 1},
+			c9Op{K: "litrt", Xs: []int{10, 20}}, c9Op{K: "stage", Key: "cross", A: 3, B: 2}, c9Op{K: "obs", Key: "~ list-in-list", A: 2, B: 4}),
+	)
+	allStages := L(c9Op{K: "litrt", Xs: []int{1, 1, 3, 2}}, c9Op{K: "numbers", N: 3})
+	for _, st := range c9Stages {
+		allStages.Ops = append(allStages.Ops, c9Op{K: "stage", Key: st.Name, A: 0, B: 1})
+	}
+	allStages.Ops = append(allStages.Ops, c9Op{K: "stage", Key: "merge", A: 2, B: 3}, c9Op{K: "size", A: 2})
+	hs = append(hs, allStages)
 	// every observer once on a materialised, on a lazy and on a constant list
 	allObs := L(c9Op{K: "litapp", Xs: []int{3, 1, 2}}, c9Op{K: "numbers", N: 4}, c9Op{K: "litrt", Xs: []int{2, 2, 1}}, c9Op{K: "append", A: 2, X: 5})
 	for i, ob := range c9ListObservers {
@@ -1756,7 +2063,7 @@ func c9Shrink(h c9Hist, sig string) c9Hist {
 		h = c
 	}
 	usesB := func(k string) bool {
-		return k == "concat" || k == "merge" || k == "obs" || k == "constcontains" || k == "mobs"
+		return k == "concat" || k == "merge" || k == "stage" || k == "obs" || k == "constcontains" || k == "mobs"
 	}
 	for changed := true; changed; {
 		changed = false
@@ -1810,9 +2117,10 @@ func cmdC09(seed int64, tier, outDir string) {
 	if tier == "thorough" {
 		maxOps = 20
 	}
+	c9InstallFlaky()
 	r := NewRng(seed)
 	sum := NewSummary("C09", seed, tier)
-	sum.Rule = "histories of <= 12 (thorough: 20) operations over a pool of handles, executed through the expression language, every live handle observed after every step (string(), size(), [i], =, first(); maps: string(), size(), get(k), Iter); operations are derivations (append, set, +, put, merge, ...) and OBSERVERS (an existing handle as operand of a built-in whose result is thrown away: every list/map method and operator of value.New() except append, taken from the table in harness/c09.go and cross-checked against the verif hook VerifMethodArities; plus `~` with the shared constant list of one generated function as operand); non-trivial = list history in which one parent has >= 2 derivations of which >= 1 is an append onto spare capacity (in place), or map history with >= 3 handles; distinct by the operation sequence"
+	sum.Rule = "histories of <= 12 (thorough: 20) operations over a pool of handles, executed through the expression language, every live handle observed after every step (lists that are still lazy: first(), top(2).string(), then string() - partial passes before the complete one -; materialised lists: string(), size(), [i], =; maps: string(), size(), get(k), Iter); operations are derivations (append, set, +, put, merge, ...) and OBSERVERS (an existing handle as operand of a built-in whose result is thrown away: every list/map method and operator of value.New() except append, taken from the table in harness/c09.go and cross-checked against the verif hook VerifMethodArities; plus `~` with the shared constant list of one generated function as operand), further lazy stages with per-pass state as derivations whose results stay lazy (merge, cross, combine, combine3, combineN, compact, number, iir, iirCombine), and materialisations that FAIL half way and are survived (a host function armed to fail at its n-th call; Go caller going on, or try/catch) followed by successful ones; non-trivial = list history in which one parent has >= 2 derivations of which >= 1 is an append onto spare capacity (in place), or map history with >= 3 handles; distinct by the operation sequence"
 	cw := NewCaseWriter(outDir, "From P2 Require Import Base.Prelude Heap.ListHeap Heap.MapHeap Run.C09Run.", "c09_case", "c09_id", "c09_im", "c09_is", map[string]int{"quick": 70, "thorough": 500}[tier])
 	if optReplay != "" {
 		var h c9Hist
